@@ -9,13 +9,14 @@
     accepted corruptions (parameters a component does not accept) must not change behaviour.
 The `schema` library's validation is not modelled in Coq: (c) is an oracle on the code, stated in python."""
 import copy
+import random
 import os
 import sys
 
 import vt.boot  # noqa: F401
 from gym_gridverse.envs.yaml.factory import factory_env_from_data
 
-from vt import comp, core, envs, impl, signatures, wire
+from vt import comp, core, envs, gen, impl, signatures, wire
 
 
 class Sentinel:
@@ -143,16 +144,40 @@ def shipped(ctx):
             f1.set_seed(sd); f2.set_seed(sd)
             f1.reset(); f2.reset()
             t1, t2 = [wire.cstate(f1.state)], [wire.cstate(f2.state)]
+            def one(env, a):
+                try:
+                    return (env.step(envs.ACTS[a]), wire.cstate(env.state))
+                except Exception as e:  # noqa: BLE001
+                    return ('raised', type(e).__name__)
             for a in acts:          # interleaved
-                t1.append((f1.step(envs.ACTS[a]), wire.cstate(f1.state)))
-                t2.append((f2.step(envs.ACTS[a]), wire.cstate(f2.state)))
-            if not core.same(t1, t2):
+                t1.append(one(f1, a))
+                t2.append(one(f2, a))
+            if any(isinstance(x, tuple) and x and x[0] == 'raised' for x in t1 + t2):
+                ctx.violation(f'{name}: stepping an environment built from the file raised {[x[1] for x in t1 + t2 if isinstance(x, tuple) and x and x[0] == "raised"][0]}', {'file': name, 'seed': sd, 'actions': acts})
+            elif not core.same(t1, t2):
                 ctx.violation(f'{name}: two environments built from the same file and seeded alike diverge when used interleaved (shared state)', {'file': name, 'seed': sd})
         comp.DIRECT = True
         try:
             hand = comp.build_env(desc)
         finally:
             comp.DIRECT = False
+        # the spaces a file describes are the spaces built by hand from the same lists: same verdict on states in which the agent holds an
+        # object of each declared type (the hand is a dimension trajectories from reset rarely reach)
+        try:
+            env1.set_seed(0)
+            base_state = env1.functional_reset()
+            for ty in desc['state_types']:
+                probe = wire.cstate(base_state)
+                col = next((c for c in desc['state_colors'] if c != 0), 0)
+                held = gen.rand_obj(random.Random(ty), [ty], [col], depth=0)
+                st = wire.mkstate((probe[0], probe[1], probe[2], held))
+                v1, vh = env1.state_space.contains(st), hand.state_space.contains(st)
+                ctx.case(('held-membership', name, ty), True, None)
+                if v1 != vh:
+                    ctx.violation(f'{name}: the state space built from the file says {v1} and the one built by hand says {vh} for a state whose agent holds {gen.show_obj(held)}',
+                                  {'file': name, 'held': gen.show_obj(held)})
+        except Exception as e:  # noqa: BLE001
+            ctx.violation(f'{name}: membership probe of the file-built state space raised {type(e).__name__}: {e}', {'file': name})
         for _ in range(seeds):
             ops = [('reset', None)]
             for _t in range(steps):
